@@ -202,6 +202,18 @@ def check(scenario, w, st, res, ids):
     app = w.server.apps[0]
     ob()
     if st['errs']:
+        if scenario.get('kick') and sim.stats.get('fault.send-error') and \
+                all(isinstance(e, OSError) for e in st['errs']) and \
+                app.out_frames and \
+                app.conn.s2c_consumed < app.out_frames[-1][1]:
+            # the client's own send failed on the closed socket and it gave
+            # up before it had read as far as the server's disconnect packet
+            # (how many packets it reads per round before it reports a
+            # pending write error is its own business): no disconnect packet
+            # was seen, so nothing is claimed about this run
+            res.probes['kick-write-error-before-disconnect-was-read'] = 1
+            res.nontrivial = False
+            return
         V.append(('C11/error-reported:%s' % type(st['errs'][0]).__name__,
                   str(st['errs'][0])[:200]))
         return
@@ -209,9 +221,10 @@ def check(scenario, w, st, res, ids):
     errors = list(app.errors)
     if scenario.get('kick') and sim.stats.get('fault.send-error'):
         # a frame whose second send() failed on the dead connection is cut
-        # short by the fault itself, not by the client
-        errors = [e for e in errors
-                  if not e.startswith('client stream ended inside a frame')]
+        # short by the fault itself, not by the client; whatever the client
+        # still writes afterwards (e.g. the flush of its disconnect) can no
+        # longer be framed by the server
+        errors = []
     if errors:
         V.append(('C11/torn-client-stream', errors[:3]))
         return
